@@ -55,9 +55,10 @@ class DCModel:
                 lim = r.max_loading_percent / 100. * r.max_i_ka * r.df * r.parallel * np.sqrt(3) * float(vn.at[r.from_bus])
             br.append(("line", li, self.node[int(r.from_bus)], self.node[int(r.to_bus)], sn / x, 0., lim))
         for ti, r in net.trafo[net.trafo.in_service.values].iterrows():
-            if r.get("tap_changer_type", None) not in (None, "Ratio") and not (isinstance(r.get("tap_changer_type"), float)):
-                if np.isfinite(r.tap_pos) and r.tap_pos != r.tap_neutral:
-                    raise Unsupported("tap changer type %s" % r.tap_changer_type)
+            tct = r.get("tap_changer_type", None)
+            moved = np.isfinite(r.get("tap_pos", np.nan)) and r.tap_pos != r.tap_neutral
+            if isinstance(tct, str) and tct != "Ratio" and moved:
+                raise Unsupported("tap changer type %s" % tct)
             n_tap = 1.
             if np.isfinite(r.get("tap_pos", np.nan)) and np.isfinite(r.get("tap_step_percent", np.nan)):
                 if np.isfinite(r.get("tap_step_degree", np.nan)) and r.tap_step_degree != 0 and r.tap_pos != r.tap_neutral:
